@@ -382,6 +382,46 @@ class Check(Property):
                 v.append(f"C17 wraps(None, ('meter', 'centimeter')) with the default y = [1, 2] meter: the function received {ry!r}")
         except Exception as exc:  # noqa: BLE001
             v.append(f"C17 wraps with an array-quantity default that is used: raised {type(exc).__name__}: {exc}")
+        # array arguments and array defaults, called repeatedly: every call hands over the converted magnitudes and leaves the
+        # caller's quantity (and the stored default) as they were - scaled units, offset scales, '=A' references
+        for decl, units_, vals, wantf in ((("meter",), "centimeter", [150.0, 250.0], lambda a: a / 100),
+                                         (("kelvin",), "degree_Celsius", [25.0, 100.0], lambda a: a + 273.15),
+                                         (("centimeter / second ** 2",), "meter / second ** 2", [9.8, 1.0], lambda a: a * 100),
+                                         (("=A",), "inch", [1.0, 2.0], lambda a: a)):
+            seen = []
+            h = uf.wraps(None, decl)(lambda x: seen.append(np.array(x, copy=True)) or 0)
+            qa = uf.Quantity(np.array(vals), units_)
+            for call in (1, 2, 3):
+                del seen[:]
+                try:
+                    h(qa)
+                except Exception as exc:  # noqa: BLE001
+                    v.append(f"C17 wraps(None, {decl}) call {call} with {vals} {units_}: raised {type(exc).__name__}: {exc}")
+                    break
+                if not seen or not np.allclose(seen[0], wantf(np.array(vals)), rtol=1e-12):
+                    v.append(f"C17 wraps(None, {decl}) call {call} with the same quantity {vals} {units_}: the function received "
+                             f"{seen[0].tolist() if seen else None}, the conversion gives {wantf(np.array(vals)).tolist()}")
+                    break
+                if not np.array_equal(np.asarray(qa.magnitude), np.array(vals)) or str(qa.units) != str(uf.Unit(units_)):
+                    v.append(f"C17 wraps(None, {decl}) call {call}: the caller's quantity {vals} {units_} now reads {qa!r}")
+                    break
+        seen = []
+
+        def fdef2(x, g_=uf.Quantity(np.array([9.8]), "meter / second ** 2")):
+            seen.append(np.array(g_, copy=True))
+            return 0
+        h2 = uf.wraps(None, ("meter", "centimeter / second ** 2"))(fdef2)
+        for call in (1, 2, 3):
+            del seen[:]
+            try:
+                h2(uf.Quantity(1.0, "meter"))
+                if not seen or not np.allclose(seen[0], [980.0]):
+                    v.append(f"C17 wraps with the array default 9.8 m/s**2 declared in cm/s**2, call {call}: the function received "
+                             f"{seen[0].tolist() if seen else None}, expected [980.0]")
+                    break
+            except Exception as exc:  # noqa: BLE001
+                v.append(f"C17 wraps with an array default, call {call}: raised {type(exc).__name__}: {exc}")
+                break
         # a conversion only an active context allows: inside the context the rule applies, outside the call is refused
         g = u.wraps(None, "terahertz")(lambda x: got.append(x) or x)
         q = u.Quantity(Fraction(rng.randint(100, 900)), "nanometer")
